@@ -5,6 +5,7 @@
 From Coq Require Import List ZArith Bool Arith.
 From YV Require Import Common.Corr Model.Eval Lemmas.EvalFrame Lemmas.EvalHost Gen.Mutations.
 From YV Require Model.Convert Lemmas.ConvertSpec.
+From YV Require Import Lemmas.EvalWf Lemmas.EvalThreads Lemmas.EvalShift.
 Import ListNotations.
 
 (* For ANY host context chain, any context c of it handed to evaluate, any data, any expression:
@@ -26,6 +27,22 @@ Proof. exact evaluate_host_frame. Qed.
 Theorem C09_append_only :
   forall f s c e s' r, eval f s c e = (s', r) -> exists h l, heap s' = heap s ++ h /\ log s' = log s ++ l.
 Proof. exact eval_ext. Qed.
+
+(* Reuse: a prepared context chain [base] can be used again and again.  Whatever block g of contexts earlier
+   evaluations left behind on the heap, evaluating any statement in a fresh child of a context of the chain gives the same
+   tick log, the same error, and the same value (context ids allocated by the evaluation itself renamed by [shv]; a
+   value without context ids - any JSON-like result - is literally equal).  No garbage collection is modelled: the
+   theorem quantifies over ALL g. *)
+Theorem C09_reuse :
+  forall fuel base g c data e,
+    hok base -> c < length base -> vok (length base) data ->
+    let j := {| j_parent := c; j_data := data; j_expr := e |} in
+    snd (run_job fuel (base ++ g) j)
+    = (fst (snd (run_job fuel base j)), shres (shv base g) (snd (snd (run_job fuel base j)))).
+Proof. exact garbage_irrelevant. Qed.
+
+Theorem C09_reuse_plain_values : forall base g v, vok 0 v -> shv base g v = v.
+Proof. exact shv_idfree. Qed.
 
 (* Every in-place mutation in a registered payload acts on an object built by that very call
    (a fresh local, the payload's own child context, or a helper object private to the evaluation). *)
